@@ -3,10 +3,46 @@ import QKV.Drv.Json
 import QKV.Model.Po2Quant
 open Lean QKV QKV.Drv QKV.Po2Q
 
-def cfgOfJson (j : Json) : Except String Cfg := do
-  pure { relu := ← getBool j "relu", bits := ← getNat j "bits", maxValue := ← getOptRat j "max_value",
-         negSlope := ← getRat j "neg_slope", floorMode := ← getBool j "floor", quad := ← getBool j "quad",
-         eps := ← getRat j "eps" }
+def formOfStr (s : String) : Except String NumForm :=
+  match s with
+  | "pyInt" => pure .pyInt | "pyFloat" => pure .pyFloat | "npFloat16" => pure .npFloat16
+  | "npFloat32" => pure .npFloat32 | "npFloat64" => pure .npFloat64 | "npInt32" => pure .npInt32
+  | "npInt64" => pure .npInt64 | "ndarrayInt" => pure .ndarrayInt | "ndarrayFloat" => pure .ndarrayFloat
+  | "tfConstant" => pure .tfConstant | "tfVariable" => pure .tfVariable
+  | _ => throw s!"unknown spelling {s}"
+
+def getForm (j : Json) (k : String) (dflt : NumForm) : Except String NumForm :=
+  match j.getObjVal? k with
+  | .ok v => do formOfStr (← v.getStr?)
+  | .error _ => pure dflt
+
+def getBoolD (j : Json) (k : String) (dflt : Bool) : Except String Bool :=
+  match j.getObjVal? k with
+  | .ok _ => getBool j k
+  | .error _ => pure dflt
+
+/-- the constructor call as written (spellings default to python numbers) -/
+def ctorOfJson (j : Json) : Except String Ctor := do
+  let mvForm ← getForm j "mv_form" .pyFloat
+  pure { relu := ← getBool j "relu", bits := ← getNat j "bits", bitsForm := ← getForm j "bits_form" .pyInt,
+         maxValue := (← getOptRat j "max_value").map fun v => ⟨mvForm, v⟩,
+         negSlope := ⟨← getForm j "slope_form" .pyFloat, ← getRat j "neg_slope"⟩,
+         stochastic := ← getBoolD j "stoch" false,
+         quad := ← getBool j "quad", floorMode := ← getBool j "floor" }
+
+def stepOfJson (j : Json) : Except String Step := do
+  match ← getStr j "set" with
+  | "max_value" => pure (.setMaxValue (← getOptRat j "v"))
+  | "neg_slope" => pure (.setNegSlope (← getRat j "v"))
+  | "floor" => pure (.setFloor (← getBool j "b"))
+  | "stoch" => pure (.setStochastic (← getBool j "b"))
+  | "bits" => pure (.setBits (← getNat j "n"))
+  | s => throw s!"unknown step {s}"
+
+def histOfJson (j : Json) : Except String (List Step) :=
+  match j.getObjVal? "hist" with
+  | .ok v => do (← v.getArr?).toList.mapM stepOfJson
+  | .error _ => pure []
 
 /-- constructor-time rejections of the real classes -/
 def cfgErr (c : Cfg) : Option String :=
@@ -32,14 +68,25 @@ def po2Exp? (y : Rat) : Option Int :=
 
 def handle (j : Json) : Except String Json := do
   let op ← getStr j "op"
-  let c ← cfgOfJson (← j.getObjVal? "cfg")
-  match cfgErr c with
+  let cj ← j.getObjVal? "cfg"
+  let k ← ctorOfJson cj
+  let eps ← getRat cj "eps"
+  let training ← getBoolD cj "training" false
+  match cfgErr (k.cfg eps) with
   | some e => pure <| Json.mkObj [("err", Json.str e)]
   | none =>
+  let o := (Obj.init k).run (← histOfJson cj)
+  let c := o.view eps       -- what the code computes with (cached exponent range)
+  let cf := o.fresh eps     -- what a new object built from the current attributes computes with
+  let st := o.stochastic
+  let stale := decide (c.bits ≠ cf.bits)
   match op with
   | "cfg" =>
-    pure <| Json.mkObj [("min_exp", Json.num c.minExp), ("max_exp", Json.num c.maxExp),
-                        ("qmin", ratToJson (qmin c)), ("qmax", ratToJson (qmax c))]
+    pure <| Json.mkObj [("min_exp", Json.num cf.minExp), ("max_exp", Json.num cf.maxExp),
+                        ("v_min_exp", Json.num c.minExp), ("v_max_exp", Json.num c.maxExp),
+                        ("qmin", optRatToJson (qminForm o.bitsForm c)), ("qmax", ratToJson (qmaxForm o.bitsForm c)),
+                        ("s_qmin", ratToJson (qmin cf)), ("s_qmax", ratToJson (qmax cf)),
+                        ("stale", Json.bool stale), ("coherent", Json.bool (decide o.Coherent))]
   | "quant" =>
     let xs ← getRatList j "x"
     let ys ← getRatList j "y"      -- implementation outputs, judged here (same length as x)
@@ -48,27 +95,32 @@ def handle (j : Json) : Except String Json := do
     for (x, y) in xs.zip ys do
       let x0 := daz x
       let v := logArg c x0
-      let rs := admExps c v
+      let rs := admExpsS c st training v
       let rdet := rawExp c v
       let adm := rs.map fun (r : Int) =>
         Json.arr #[Json.num r, Json.num (clipExpWith c (magIn c x0) r), ratToJson (quantWith c x0 r),
                    optRatToJson (quantFWith c x r), Json.str (regime c x r)]
-      -- clause predicates on the implementation's own output
+      -- clause predicates on the implementation's own output, against the FRESH configuration
       let ye := po2Exp? y
       let inRange := match ye with
-        | some e => decide (c.minExp ≤ e ∧ e ≤ c.maxExp)
+        | some e => decide (cf.minExp ≤ e ∧ e ≤ cf.maxExp)
         | none => false
-      let signOk := decide (y ≠ 0) && (decide (y < 0) == decide (signOut c x0 < 0))
-      let admExact := rs.any fun r => decide (quantWith c x0 r = y)
+      let signOk := decide (y ≠ 0) && (decide (y < 0) == decide (signOut cf x0 < 0))
+      let rsf := admExpsS cf st training (logArg cf x0)
+      let admExact := rsf.any fun r => decide (quantWith cf x0 r = y)
       let matchF := rs.any fun r => quantFWith c x r == some y
-      let leMax := match c.maxValue with
+      let leMax := match cf.maxValue with
         | some m => decide (rabs y ≤ m)
         | none => true
+      -- regime of the FRESH configuration (which float32 effect, if any, the reference has here)
+      let fregime := match rsf with
+        | r :: _ => regime cf x r
+        | [] => "none"
       out := out.push <| Json.mkObj [
         ("adm", Json.arr adm.toArray), ("det", Json.num rdet),
-        ("yd", ratToJson (quant c x0)),
-        ("below", Json.bool (decide (magIn c x0 < c.eps))),
-        ("clamped", Json.bool (match c.maxValue with | some m => decide (m ≤ magIn c x0) | none => false)),
+        ("yd", ratToJson (quant cf x0)), ("fregime", Json.str fregime),
+        ("below", Json.bool (decide (magIn cf x0 < cf.eps))),
+        ("clamped", Json.bool (match cf.maxValue with | some m => decide (m ≤ magIn cf x0) | none => false)),
         ("ye", match ye with | some e => Json.num e | none => Json.null),
         ("in_range", Json.bool inRange), ("sign_ok", Json.bool signOk),
         ("adm_exact", Json.bool admExact), ("match", Json.bool matchF), ("le_max", Json.bool leMax)]
